@@ -340,10 +340,11 @@ Definition add_import (st : im_state) (i : simport) : im_state :=
 
 Definition config_header (s : dstate) (refs : list ((string * string) * string * string)) : out :=
   let recorded := sort_stable (fun x => x) import_key_ltb (map to_simport (ds_imports s)) in
-  let st0 := fold_left add_import recorded ([], [], []) in
+  let dynamic := existsb (fun d => String.eqb (d_module d) "__gin__.dynamic_registration") (ds_imports s) in
+  (* repaired code: under dynamic registration the reserved symbol gin counts as a name already taken *)
+  let st0 := fold_left add_import recorded ([], [], if dynamic then ["gin"] else []) in
   let needed :=
     map (fun e => snd (fst e)) (ds_store s) ++ map (fun r => snd r) refs in
-  let dynamic := existsb (fun d => String.eqb (d_module d) "__gin__.dynamic_registration") (ds_imports s) in
   let st1 := if negb dynamic then st0 else fold_left (fun st sel =>
                 match find_sel sel (ds_reg s) with
                 | Some e => match ce_src e with
